@@ -838,10 +838,11 @@ func embeddedYAML(w *World) ([]byte, string, error) {
 	return nil, "", anchorErr{"aucoalesce: embedded normalizations.yaml"}
 }
 
-func propC20(r *Run, w *World) {
-	// R1 record types
-	r.Rule("C20.R1", "record types: auditMessageTypeToName and auditMessageNameToType are inverse bijections on the same constant set; names are [A-Z0-9_]+ (case round-trip) and none has the UNKNOWN[n] shape", 480)
-	r.Rules["C20.R1"].Exact = true
+// recordTypeTables decides that the two record-type tables are inverse bijections (C20.R1; the
+// header parser's "RecordType is exactly T" rests on it as well: C04.R6). Returns name → code.
+func recordTypeTables(r *Run, w *World, ruleID string) map[string]uint64 {
+	r.Rule(ruleID, "record types: auditMessageTypeToName and auditMessageNameToType are inverse bijections on the same constant set; names are [A-Z0-9_]+ (case round-trip) and none has the UNKNOWN[n] shape", 480)
+	r.Rules[ruleID].Exact = true
 	t2n, _, _, err1 := w.MapLit("auparse", "auditMessageTypeToName")
 	n2t, _, _, err2 := w.MapLit("auparse", "auditMessageNameToType")
 	nameRE := regexp.MustCompile(`^[A-Z0-9_]+$`)
@@ -888,6 +889,12 @@ func propC20(r *Run, w *World) {
 			r.Check(ok && back == k, "type→name→type "+v, kv.Pos, "", fmt.Sprintf("type %d → %s, but %s → %d (present=%v)", k, v, v, back, ok))
 		}
 	}
+	return recordTypeNames
+}
+
+func propC20(r *Run, w *World) {
+	// R1 record types
+	recordTypeNames := recordTypeTables(r, w, "C20.R1")
 	// String()/GetAuditMessageType fallbacks (shared with C04.R5)
 	c04UnknownRoundTrip(r, w, "C20.R1b")
 
